@@ -329,7 +329,8 @@ theorem pncexpr_resolves (f : File) (helpers consts : List String) (hn : NamesNo
     (hv : f.var? n = some v) (hr : n ∉ pncexprReserved) :
     (pncexprEnv f helpers consts).get n = some (.fileVar v) := by
   obtain ⟨hmem, hname⟩ := mem_of_var? f n v hv
-  unfold pncexprEnv
+  rw [pncexprReserved_closed] at hr
+  rw [pncexprEnv_closed]
   rw [get_fill_of_some]
   all_goals rw [get_update_not_mem _ _ _ (by
     intro p hp
@@ -344,7 +345,7 @@ theorem pncexpr_resolves (f : File) (helpers consts : List String) (hn : NamesNo
 /-- `pncexpr`: no name means a variable that is not the file's variable of that name -/
 theorem pncexpr_sound (f : File) (helpers consts : List String) (hn : NamesNodup f) :
     Sound f (pncexprEnv f helpers consts) := by
-  unfold pncexprEnv
+  rw [pncexprEnv_closed]
   refine sound_fill f _ _ (sound_update f _ _ (sound_update f _ _ (sound_update f _ _ (sound_update f _ _
     (sound_update f _ _ (sound_nil f) (fileBinds_sound f hn)) ?_) ?_) (fileBinds_sound f hn)) ?_) ?_
   all_goals exact fun p hp v hv => others_not_fileVar _ _ p hp v hv f
@@ -353,7 +354,8 @@ theorem pncexpr_sound (f : File) (helpers consts : List String) (hn : NamesNodup
 theorem eval_resolves (f : File) (hn : NamesNodup f) (n : String) (v : Var)
     (hv : f.var? n = some v) (hr : n ∉ evalReserved) : (evalEnv f).get n = some (.fileVar v) := by
   obtain ⟨hmem, hname⟩ := mem_of_var? f n v hv
-  unfold evalEnv
+  rw [evalReserved_closed] at hr
+  rw [evalEnv_closed]
   rw [get_update_not_mem _ _ _ (by
     intro p hp
     simp only [others, List.mem_map] at hp
@@ -366,7 +368,7 @@ theorem eval_resolves (f : File) (hn : NamesNodup f) (n : String) (v : Var)
   rw [get_fill_of_some _ _ _ (by rw [h1]; rfl), h1]
 
 theorem eval_sound (f : File) (hn : NamesNodup f) : Sound f (evalEnv f) := by
-  unfold evalEnv
+  rw [evalEnv_closed]
   refine sound_update f _ _ (sound_fill f _ _ (sound_update f _ _ (sound_nil f) (fileBinds_sound f hn)) ?_) ?_
   all_goals exact fun p hp v hv => others_not_fileVar _ _ p hp v hv f
 
